@@ -218,7 +218,7 @@ func TestC20WindowSafety(t *testing.T) {
 	for _, g := range gaps {
 		off := int64(s.S.VerifSnapshot().Offset)
 		glow.SetCurrentTimeslot(uint32(off + g))
-		if !s.S.VerifStep("migrate") {
+		if !world.Step(s.S, "migrate") {
 			t.Fatalf("C20: rotation loop did not take the granted step")
 		}
 		if ps := server.VerifPanics(); len(ps) > 0 {
